@@ -77,7 +77,8 @@ pub fn global_to_model(g: &Global) -> MapL {
     opt!(m, "tx_data.tx_modifiable", tx_modifiable);
     mand!(m, "version", version);
     kmap!(m, "xpub", xpub, |k: &Xpub| k.encode().to_vec());
-    { let mut es: Vec<Entry> = scalars.iter().map(|s| Entry { name: "scalars".into(), key: Some(Serialize::serialize(s)), val: vec![] }).collect(); es.sort(); m.extend(es); }
+    { let es: Vec<Entry> = scalars.iter().map(|s| Entry { name: "scalars".into(), key: Some(Serialize::serialize(s)), val: vec![] }).collect(); m.extend(es); }   // a Vec: listed in vector order, duplicates included
+    let _ = &mut m;
     opt!(m, "elements_tx_modifiable_flag", elements_tx_modifiable_flag);
     kmap!(m, "proprietary", proprietary, prop_key_bytes);
     kmap!(m, "unknown", unknown, raw_key_bytes);
